@@ -28,9 +28,18 @@ NEG = {'==': ('==', True), '!=': ('==', False), '<': ('<', True), '>=': ('<', Fa
 SWAP = {'==': '==', '!=': '!=', '<': '>', '>': '<', '<=': '>=', '>=': '<='}
 
 
-def atoms(f, ctx, x, pol, out=None, depth=0):
+def _known(st, f, ctx, x, pol):
+    """are all atomic facts of (x == pol) already in state st?"""
+    if st is None:
+        return False
+    a = atoms(f, ctx, x, pol, None, 1, None)
+    return bool(a) and all(('G:%s=%s' % (k, 'T' if p else 'F')) in st for k, p in a)
+
+
+def atoms(f, ctx, x, pol, out=None, depth=0, st=None):
     """Decompose condition expr x taken with polarity pol into atomic facts
-    [(key, polarity)].  Only sound decompositions: (a&&b)=T, (a||b)=F, !a."""
+    [(key, polarity)].  Only sound decompositions: (a&&b)=T, (a||b)=F, !a; and, using the facts
+    `st` already established on the path, (a||b)=T with a known false => b, (a&&b)=F with a known true => !b."""
     if out is None:
         out = []
     if depth > 25:
@@ -41,20 +50,28 @@ def atoms(f, ctx, x, pol, out=None, depth=0):
         return out
     k = e['k']
     if k == 'unop' and e['op'] == '!':
-        return atoms(f, ctx, e['sub'], not pol, out, depth + 1)
+        return atoms(f, ctx, e['sub'], not pol, out, depth + 1, st)
     if k == 'binop' and e['op'] == '&&':
         if pol:
-            atoms(f, ctx, e['l'], True, out, depth + 1)
-            atoms(f, ctx, e['r'], True, out, depth + 1)
+            atoms(f, ctx, e['l'], True, out, depth + 1, st)
+            atoms(f, ctx, e['r'], True, out, depth + 1, st)
         else:
             out.append((f.show(x, ctx), False))
+            if _known(st, f, ctx, e['l'], True):
+                atoms(f, ctx, e['r'], False, out, depth + 1, st)
+            elif _known(st, f, ctx, e['r'], True):
+                atoms(f, ctx, e['l'], False, out, depth + 1, st)
         return out
     if k == 'binop' and e['op'] == '||':
         if not pol:
-            atoms(f, ctx, e['l'], False, out, depth + 1)
-            atoms(f, ctx, e['r'], False, out, depth + 1)
+            atoms(f, ctx, e['l'], False, out, depth + 1, st)
+            atoms(f, ctx, e['r'], False, out, depth + 1, st)
         else:
             out.append((f.show(x, ctx), True))
+            if _known(st, f, ctx, e['l'], False):
+                atoms(f, ctx, e['r'], True, out, depth + 1, st)
+            elif _known(st, f, ctx, e['r'], False):
+                atoms(f, ctx, e['l'], True, out, depth + 1, st)
         return out
     if k == 'binop' and e['op'] in NEG:
         l, r, op = e['l'], e['r'], e['op']
@@ -66,7 +83,7 @@ def atoms(f, ctx, x, pol, out=None, depth=0):
         p = pol if same else (not pol)
         # x == 0 / x != 0  ->  truthiness of x
         if rc == 0 and nop == '==':
-            return atoms(f, ctx, l, not p, out, depth + 1)
+            return atoms(f, ctx, l, not p, out, depth + 1, st)
         rs = str(rc) if rc is not None else f.show(r, ctx)
         out.append(('%s %s %s' % (f.show(l, ctx), nop, rs), p))
         # additional derived facts for orderings against constants
@@ -103,14 +120,14 @@ def atoms(f, ctx, x, pol, out=None, depth=0):
         if init is not None and init >= 0:
             ie = f.x(f.skip(init))
             if ie is not None and (ie['k'] == 'binop' and (ie['op'] in NEG or ie['op'] in ('&&', '||')) or (ie['k'] == 'unop' and ie['op'] == '!')):
-                atoms(f, ctx, init, pol, out, depth + 1)
+                atoms(f, ctx, init, pol, out, depth + 1, st)
             elif ie is not None and ie['k'] == 'call' and f.decls[e['decl']]['type'] in ('bool', 'int'):
                 out.append((f.show(init, ctx), pol))     # `bool ok = try_fn(); if (ok)`
     out.append((f.show(x, ctx), pol))
     return out
 
 
-def cond_atoms(cond):
+def cond_atoms(cond, st=None):
     f, ctx, x, pol = cond
     if isinstance(pol, tuple):
         # switch edge / temporary-destructor branch
@@ -118,7 +135,7 @@ def cond_atoms(cond):
         if kind == 'case' and val is not None:
             return [('%s == %d' % (f.show(x, ctx), val), True)]
         return []
-    return atoms(f, ctx, x, pol)
+    return atoms(f, ctx, x, pol, None, 0, st)
 
 
 # ----------------------------------------------------------------------------
@@ -526,7 +543,8 @@ def _mentions(key, path):
     while i >= 0:
         before = key[i - 1] if i > 0 else ' '
         after = key[i + len(path)] if i + len(path) < len(key) else ' '
-        if not (before.isalnum() or before == '_') and not (after.isalnum() or after == '_'):
+        member_of_other = before == '.' or (before == '>' and i > 1 and key[i - 2] == '-')
+        if not (before.isalnum() or before == '_') and not (after.isalnum() or after == '_') and not member_of_other:
             return True
         i = key.find(path, i + 1)
     return False
@@ -653,7 +671,7 @@ def run(G, trackers, init=frozenset()):
     def edge(cond, st):
         if cond is None:
             return st
-        at = cond_atoms(cond)
+        at = cond_atoms(cond, st)
         for t in trackers:
             st = t.edge(cond, at, st)
             if st is None:
